@@ -693,10 +693,6 @@ class ComputedStyle(dict):
                 value = 'initial'
             pending = False
 
-        if value == 'inherit' and parent_style is None:
-            # On the root element, 'inherit' from initial values
-            value = 'initial'
-
         if pending:
             # Property with pending values, validate them.
             solved_tokens = []
@@ -718,6 +714,10 @@ class ComputedStyle(dict):
                     if key not in INITIAL_NOT_COMPUTED:
                         # The value is the same as when computed.
                         self[key] = value
+
+        if value == 'inherit' and parent_style is None:
+            # On the root element, 'inherit' from initial values
+            value = 'initial'
 
         if value == 'initial':
             value = [] if key[:2] == '__' else INITIAL_VALUES[key]
